@@ -308,9 +308,28 @@ type replay struct {
 
 type envDiscard struct{ what string }
 
+// fdGuard keeps the process below its descriptor limit.  Every context creates a log file under PGO_TRACE_DIR that
+// only a garbage collection closes (the runtime's recorder is replaced, nothing else refers to the file), and TCP
+// mailboxes are shut down in the background 500 ms after their execution: a long run under load can outpace both.
+func fdGuard(we *wenv) {
+	we.guard++
+	if we.guard%100 != 0 {
+		return
+	}
+	for i := 0; i < 20; i++ {
+		ents, err := os.ReadDir("/proc/self/fd")
+		if err != nil || len(ents) < 5000 {
+			return
+		}
+		runtime.GC()
+		time.Sleep(300 * time.Millisecond)
+	}
+}
+
 func body(f family, mu *sync.Mutex, tot *runStats, discards map[string]int) func(c *explore.Ctx) {
 	return func(c *explore.Ctx) {
 		we := c.User.(*wenv)
+		fdGuard(we)
 		cs := f.Draw(c)
 		var st runStats
 		var r *runner
